@@ -734,6 +734,12 @@ func (s *c16Sys) judgeRound(before, after c16Obs) []mc.Violation {
 		if !jb.waiting {
 			continue
 		}
+		if jb.phase != "Pending" || jb.passed {
+			// a job that was already admitted / started / finished but is (still) held by the arbitrator (adopted at
+			// start-up): re-arbitration of such a job is not described by the statement; the caps above still apply
+			res.Count("rearbitrated_already_admitted_job", 1)
+			continue
+		}
 		ja := after.jobs[uid]
 		p := after.pods[ja.pod]
 		switch {
@@ -917,29 +923,34 @@ func c16IS(v string) *intstr.IntOrString {
 func c16Configs(env *mc.Env) []*c16Cfg {
 	all := []string{"a1", "a2", "a3", "b1", "b2"}
 	i := func(v int32) *int32 { return &v }
+	// percent settings: 70% gives w1 (3 replicas) 2 and w2 (2 replicas) 1; 50% gives 1 and 1. An allowance equal to the
+	// replica count (integer 2 for w2) makes the workload non-migratable (expected-replicas rule): those jobs fail.
 	cfgs := []*c16Cfg{
-		// node cap binding (n1 hosts a1 a3 b1); workload settings give w1 two slots, w2 one
-		{name: "node1", elig: []string{"a1", "a3", "b1", "a2"}, perNode: i(1), perWl: c16IS("70%"), maxUnav: c16IS("70%"), depthQ: 5, depthT: 7},
-		// namespace cap binding inside w1's two slots
-		{name: "ns1-global2", elig: []string{"a1", "a2", "b1", "b2"}, perNs: i(1), global: i(2), perWl: c16IS("70%"), maxUnav: c16IS("70%"), depthQ: 5, depthT: 7},
-		// workload cap (1) below the unavailability allowance (2 for w1)
-		{name: "wl1-node2", elig: []string{"a1", "a2", "a3", "b1"}, perNode: i(2), perWl: c16IS("1"), maxUnav: c16IS("70%"), unreadyOK: []string{"a2"}, depthQ: 5, depthT: 7},
-		// unavailability: 50% (= 1 of 3 / 1 of 2) with pods turning unready
-		{name: "unav50pct", elig: []string{"a1", "a2", "b1"}, perWl: c16IS("70%"), maxUnav: c16IS("50%"), unreadyOK: []string{"a1", "a3", "b2"}, depthQ: 5, depthT: 7},
+		// node cap binding (n1 hosts a1 a3 b1)
+		{name: "node1", elig: all, perNode: i(1), perWl: c16IS("70%"), maxUnav: c16IS("70%"), depthQ: 6, depthT: 9},
+		// namespace cap binding inside w1's two slots, global cap 2 across namespaces
+		{name: "ns1-global2", elig: all, perNs: i(1), global: i(2), perWl: c16IS("70%"), maxUnav: c16IS("70%"), depthQ: 6, depthT: 9},
+		// workload cap (1) below the unavailability allowance (2 for w1), node cap 2
+		{name: "wl1-node2", elig: []string{"a1", "a2", "a3", "b1"}, perNode: i(2), perWl: c16IS("1"), maxUnav: c16IS("70%"), unreadyOK: []string{"a2"}, depthQ: 7, depthT: 10},
+		// unavailability 50% (1 of 3, 1 of 2) below the workload cap, pods turning unready (also beyond the allowance)
+		{name: "unav50pct", elig: []string{"a1", "a2", "b1"}, perWl: c16IS("70%"), maxUnav: c16IS("50%"), unreadyOK: []string{"a1", "a3", "b2"}, depthQ: 7, depthT: 10},
 		// unavailability 1, global 2, everything else unset
-		{name: "unav1-global2", elig: []string{"a1", "a3", "b1", "b2"}, global: i(2), maxUnav: c16IS("1"), unreadyOK: []string{"a2"}, depthQ: 5, depthT: 7},
-		// allowance == replicas for w2 (2): its jobs are refused for good (Failed), w1 keeps two slots; node cap 2
-		{name: "wl2-nonretryable", elig: []string{"a1", "a3", "b1", "a2"}, perNode: i(2), perNs: i(2), perWl: c16IS("2"), maxUnav: c16IS("2"), depthQ: 5, depthT: 7},
-		// the arbitrator's copy of a waiting job goes stale (another writer): its Update conflicts
-		{name: "conflict-global1", elig: []string{"a1", "b1", "b2"}, global: i(1), perWl: c16IS("70%"), maxUnav: c16IS("70%"), touch: true, depthQ: 5, depthT: 7},
+		{name: "unav1-global2", elig: []string{"a1", "a3", "b1", "b2"}, global: i(2), maxUnav: c16IS("1"), unreadyOK: []string{"a2"}, depthQ: 7, depthT: 10},
+		// allowance == replicas for w2: its jobs are refused for good (Failed) while w1 competes for node / namespace slots
+		{name: "wl2-nonretryable", elig: all, perNode: i(2), perNs: i(2), perWl: c16IS("2"), maxUnav: c16IS("2"), depthQ: 6, depthT: 9},
+		// the arbitrator's copy of a waiting job goes stale (another writer updated the job): its Update conflicts
+		{name: "conflict-global1", elig: []string{"a1", "b1", "b2"}, global: i(1), perWl: c16IS("70%"), maxUnav: c16IS("70%"), touch: true, depthQ: 7, depthT: 10},
+		// jobs already Running above the node cap when the arbitrator starts (delivered as Create events by the initial
+		// sync): the only way a count cap can be "already exceeded before the round"
+		{name: "adopted-running-node1", elig: all, adopted: []string{"a1", "a3"}, perNode: i(1), global: i(3), perWl: c16IS("70%"), maxUnav: c16IS("70%"), depthQ: 6, depthT: 9},
 	}
 	if env.Thorough() {
 		cfgs = append(cfgs,
-			&c16Cfg{name: "all-caps-1", elig: all, perNode: i(1), perNs: i(1), global: i(1), perWl: c16IS("1"), maxUnav: c16IS("1"), unreadyOK: []string{"a3"}, depthQ: 5, depthT: 6},
-			&c16Cfg{name: "all-caps-2", elig: all, perNode: i(2), perNs: i(2), global: i(2), perWl: c16IS("70%"), maxUnav: c16IS("70%"), unreadyOK: []string{"a3", "b2"}, failRun: true, depthQ: 5, depthT: 6},
-			&c16Cfg{name: "node2-ns2-global-unset", elig: all, perNode: i(2), perNs: i(2), perWl: c16IS("70%"), maxUnav: c16IS("50%"), unreadyOK: []string{"a1"}, depthQ: 5, depthT: 6},
-			// jobs already Running when the arbitrator starts, above the (lowered) node cap
-			&c16Cfg{name: "adopted-running-node1", elig: []string{"b1", "a2", "b2"}, adopted: []string{"a1", "a3"}, perNode: i(1), perWl: c16IS("70%"), maxUnav: c16IS("70%"), depthQ: 5, depthT: 7},
+			&c16Cfg{name: "all-caps-1", elig: all, perNode: i(1), perNs: i(1), global: i(1), perWl: c16IS("1"), maxUnav: c16IS("1"), unreadyOK: []string{"a3"}, failRun: true, depthT: 8},
+			&c16Cfg{name: "all-caps-2", elig: all, perNode: i(2), perNs: i(2), global: i(2), perWl: c16IS("70%"), maxUnav: c16IS("70%"), unreadyOK: []string{"a3", "b2"}, failRun: true, depthT: 8},
+			&c16Cfg{name: "node2-ns2-unav50pct", elig: all, perNode: i(2), perNs: i(2), perWl: c16IS("70%"), maxUnav: c16IS("50%"), unreadyOK: []string{"a1", "b1"}, depthT: 8},
+			&c16Cfg{name: "global1-unav2-conflict", elig: all, global: i(1), perWl: c16IS("2"), maxUnav: c16IS("2"), touch: true, depthT: 8},
+			&c16Cfg{name: "node1-ns2-wl-unset", elig: all, perNode: i(1), perNs: i(2), maxUnav: c16IS("70%"), unreadyOK: []string{"a2"}, depthT: 8},
 		)
 	}
 	return cfgs
@@ -947,21 +958,37 @@ func c16Configs(env *mc.Env) []*c16Cfg {
 
 func TestVerifC16Arb(t *testing.T) {
 	env := mc.LoadEnv()
-	for _, cfg := range c16Configs(env) {
+	cfgs := c16Configs(env)
+	for ci, cfg := range cfgs {
 		cfg := cfg
 		ops := c16BuildOps(cfg)
 		res := mc.NewResult("C16", "arb-"+cfg.name, "bfs")
-		res.Rule = fmt.Sprintf("BFS over all event sequences of the %d-event alphabet {one arbitration round; per eligible pod %v: a job for the pod is created and handed to the arbitrator by its event handler, the job is set Running, the job finishes (Succeeded / Aborted, handler drops it); pods %v turn unready%s} on the real arbitratorImpl + filter (production initFilters wiring) over a fake API server with the production field indexes; caps: %s; after every round the API objects are judged against the statement, at every state Filter(pod) is asked for all five pods",
-			len(ops), cfg.elig, cfg.unreadyOK, map[bool]string{true: "; another writer updates a waiting job", false: ""}[cfg.touch], cfg.caps())
-		res.Assumptions = []string{
-			"a new job is only created for a pod without a live job (the descheduler asks Filter first; users are assumed not to create duplicates)",
-			"one arbitrator incarnation: the in-memory passed set is not lost (no restart between a job passing and it being started)",
-			"API reads are fresh (fake client, no informer lag); events between rounds are atomic",
-			"expected replicas: w1=3 (pods a1 a2 a3 in namespace x), w2=2 (b1 b2 in y); percent settings are rounded down, at least 1",
+		extra := ""
+		if cfg.touch {
+			extra += "; another writer updates a waiting job (the arbitrator's copy goes stale)"
 		}
-		b := &mc.BFS{Res: res, Env: env, New: func() mc.System { return c16NewSys(cfg, ops, res) }, NumOps: len(ops),
+		if cfg.failRun {
+			extra += "; a Running job fails"
+		}
+		if len(cfg.adopted) > 0 {
+			extra += fmt.Sprintf("; initial state: jobs for %v are already Running and were delivered to the arbitrator by the initial sync", cfg.adopted)
+		}
+		res.Rule = fmt.Sprintf("BFS over all event sequences of the %d-event alphabet {one arbitration round (doOnceArbitrate); per eligible pod %v: a job for the pod is created in the API server and handed to the arbitrator by its event handler, the passed job is set Running, the job finishes (Running->Succeeded / passed->Aborted; the handler drops it from the arbitrator); pods %v turn unready%s} on the real arbitratorImpl + filter (production initFilters wiring, production sort chain) over a controller-runtime fake client with the production field indexes; caps: %s. After every round the API objects are judged against the statement; at every reached state Filter(pod) is asked for all five pods. A state is distinct when pod readiness, the live job's phase / passed annotation / waiting-collection and passed-set membership / staleness, the terminal phases seen per pod or the creation order of the waiting jobs differ.",
+			len(ops), cfg.elig, cfg.unreadyOK, extra, cfg.caps())
+		res.Assumptions = []string{
+			"a new job is only created for a pod without a live job (the descheduler asks Filter first; users are assumed not to create duplicate jobs)",
+			"one arbitrator incarnation: the in-memory passed set is never lost between a job passing arbitration and the job being started (no restart in that window)",
+			"API reads are fresh (fake client, no informer lag); events between rounds are atomic; pods are not deleted while their job waits",
+			"expected replicas: w1=3 (pods a1 a2 a3, namespace x), w2=2 (b1 b2, namespace y); n1 hosts a1 a3 b1, n2 hosts a2 b2; percent settings are rounded down and at least 1",
+		}
+		// every configuration gets an equal share of what is left of the unit's budget, so that a slow machine caps all
+		// configurations a little instead of starving the last ones
+		sub := mc.LoadEnv()
+		sub.Budget = (env.Budget - env.Elapsed()) / time.Duration(len(cfgs)-ci)
+		b := &mc.BFS{Res: res, Env: sub, New: func() mc.System { return c16NewSys(cfg, ops, res) }, NumOps: len(ops),
 			OpName: func(i int) string { return ops[i].name }, MaxDepth: env.Pick(cfg.depthQ, cfg.depthT), Repeats: 1}
 		b.Run()
+		res.WallS = sub.Elapsed().Seconds()
 		env.Emit(res)
 	}
 }
